@@ -9,6 +9,6 @@ void h_parse_array(void)
     VF_COVER(r && g_pv_calls == 0);
     VF_COVER(r && g_pv_calls == 3);
     VF_COVER(!r && g_nit_calls == 2 && g_pv_calls == 2);
-    VF_COVER(!r && g_nit_calls == 1 && g_pv_calls == 1 && g_pvok[0]);
+    VF_COVER(!r && g_nit_calls == 1 && g_pv_calls == 1 && g_pvl[0].ok);
     VF_COVER(!r && g_nit_calls == 0 && g_pv_calls == 0);
 }
